@@ -149,6 +149,10 @@ func (f *FieldCopyToGenerator) genZeroValue(fieldName string) func(*j.Group) {
 				isZero = j.Id("obj." + f.ParentIsOptionalEmbedFieldName).Op("==").Nil().Op("||").Add(isZero)
 			}
 			g.Id("v.Null").Op("=").Add(isZero)
+		} else if f.OneOfName != "" {
+			// There is no zero literal to compare with (time, duration): the attribute is null
+			// unless the oneof currently holds this branch
+			g.Id("v.Null").Op("=").Id("!active")
 		} else {
 			g.Id("v.Null").Op("=").False()
 		}
@@ -247,6 +251,10 @@ func (f *FieldCopyToGenerator) genPrimitive() *j.Statement {
 	return f.nextField("t", func(g *j.Group) {
 		if f.OneOfName != "" {
 			f.genOneOfStub(g)
+			if f.ZeroValue == "" && !f.IsPlaceholder {
+				// active := ok, see genZeroValue
+				g.Id("active").Op(":=").Id("ok")
+			}
 		}
 
 		f.genPrimitiveBody(fieldName, g)
